@@ -174,6 +174,41 @@ def real_scale(rep, b, tier, rng):
             return "stream: unterminated last line (and the lines of its fill) lost after a fill that ended on the 16384-line limit"
         return "stream %s %s: output is not the per-line image of the input" % (st.rstrip("0123456789-"), ex[0]["cmd"].split()[0])
     plain = [e for _, _, _, e in execs]
+    # transparency proper: text around a value passes through untouched.  Lines are built as prefix + value + suffix; the expected line is
+    # prefix + (the tool's result on the value ALONE, given as an argument) + suffix -- an oracle that does not go through the line scanner
+    vals = ["2020-01-01T12:30:00+01:00", "2020-01-01T12:30:00+0100", "2020-01-01T12:30:00-05:30", "2020-06-01T00:00:00Z", "2012-03-04T10:11:12", "2012-03-04",
+            "2012-W10-4", "2012-12-31T23:59:59+14:00"]
+    sufs = [": started", ":xx", ":75", ":", "::", " tail", ")", ",", ";", "", "]", "/", "=", "\t", "|", " tail: x", "; y=1"]
+    pres = ["req ", "a=", "(", "", "[", "x ", "t=2 ", "::"]
+    for tname, targs in (("dconv", ["-f", "%FT%T"]), ("dadd", ["+1h"]), ("dround", ["/1h"]), ("dconv", ["-i", "%FT%T%Z", "-f", "%s"])):
+        tool = b.tool(tname)
+        lines, want = [], []
+        alone = {}
+        for v in vals:
+            p = core.run([tool] + targs[: len(targs) - 1 if tname != "dconv" else len(targs)] + ([v] if tname == "dconv" else [v, targs[-1]]), timeout=30)
+            nrun += 1
+            alone[v] = p.stdout.rstrip("\n") if p.returncode == 0 and p.stdout.strip() else None
+        for vi, v in enumerate(vals):
+            if alone[v] is None:
+                continue        # the value alone is not accepted under this input format (e.g. no offset for %Z): nothing to compare with
+            for si, sf in enumerate(sufs):
+                pr = pres[(vi + si) % len(pres)]
+                lines.append(pr + v + sf)
+                want.append(pr + alone[v] + sf)
+        sargs = ["-S"] + targs
+        p = core.run([tool] + sargs, inp="".join(x + "\n" for x in lines), timeout=60)
+        nrun += 1
+        outl = p.stdout.split("\n")
+        if outl and outl[-1] == "":
+            outl.pop()
+        ids = {}
+        for x in want:
+            ids.setdefault(x, len(ids) + 1)
+        plain.append([{"e": "Start", "cmd": "%s %s  stream=decorated sched=default" % (tname, " ".join(sargs)), "n": len(lines), "want": [ids[x] for x in want],
+                       "first_line": lines[0]},
+                      {"e": "Out", "rc": p.returncode if p.returncode in (0, 1, 2) else 99, "got": [ids.get(o, 0) for o in outl],
+                       "first_bad": next(([lines[i], want[i], outl[i] if i < len(outl) else "(missing)"] for i in range(len(want)) if i >= len(outl) or outl[i] != want[i]), [])}])
+    rep.notes["tool_runs"] = nrun
     cc.validate_and_report(rep, "StreamTrace", "StreamTrace.cfg", plain, key, "stream_run")
 
 
